@@ -27,15 +27,20 @@ type c05Issuer struct {
 	sk2  *rsa.PrivateKey
 	kid  []byte
 	name string
-	// refuse: a configured issuer (e.g. a retired key kept in the list) whose Evaluate always reports an error
-	refuse bool
+	// refuse: a configured issuer (e.g. a retired key kept in the list) whose Evaluate always reports an error;
+	// refuseBody: ... and hands back bytes together with the error (a diagnostic body)
+	refuse     bool
+	refuseBody []byte
 }
 
 // refuser has the identity (type, key id) of the issuer it wraps and refuses every request.
-type refuser struct{ batched.Issuer }
+type refuser struct {
+	batched.Issuer
+	body []byte
+}
 
 func (r refuser) Evaluate(req tokens.TokenRequest) ([]byte, error) {
-	return nil, fmt.Errorf("issuer retired")
+	return r.body, fmt.Errorf("issuer retired")
 }
 
 func (i *c05Issuer) asIssuer() batched.Issuer {
@@ -44,9 +49,17 @@ func (i *c05Issuer) asIssuer() batched.Issuer {
 		is = wrap1{i.i1}
 	}
 	if i.refuse {
-		return refuser{is}
+		return refuser{is, i.refuseBody}
 	}
 	return is
+}
+
+func (i *c05Issuer) refusingWith(body []byte) *c05Issuer {
+	cp := *i
+	cp.refuse = true
+	cp.refuseBody = body
+	cp.name += "-refusing-with-body"
+	return &cp
 }
 
 func (i *c05Issuer) refusing() *c05Issuer {
@@ -360,8 +373,12 @@ func runC05(c *h.Ctx) {
 		"refusing-then-serving": {t1.refusing(), t1, t2.refusing(), t2},
 		"serving-then-refusing": {t1, t1.refusing(), t2, t2.refusing()},
 		"refusing-only":         {t1.refusing(), t2.refusing()},
+		// refusals that come with bytes: a short diagnostic, and one of exactly a response's length
+		"refusing-with-body-only":    {t1.refusingWith(rnd(c, 7)), t2.refusingWith(rnd(c, 256))},
+		"refusing-with-body-then-ok": {t1.refusingWith(rnd(c, 145)), t1, t2.refusingWith(rnd(c, 7)), t2},
+		"ok-then-refusing-with-body": {t1, t1.refusingWith(rnd(c, 145)), t2, t2.refusingWith(rnd(c, 256))},
 	}
-	names := []string{"both", "both-reversed", "type1-only", "type2-only", "two-type1-shared-last-byte", "shared-last-byte-reversed", "cross-type-last-byte", "cross-type-last-byte-rev", "other-keys-only", "duplicate-issuer", "refusing-then-serving", "serving-then-refusing", "refusing-only"}
+	names := []string{"both", "both-reversed", "type1-only", "type2-only", "two-type1-shared-last-byte", "shared-last-byte-reversed", "cross-type-last-byte", "cross-type-last-byte-rev", "other-keys-only", "duplicate-issuer", "refusing-then-serving", "serving-then-refusing", "refusing-only", "refusing-with-body-only", "refusing-with-body-then-ok", "ok-then-refusing-with-body"}
 	kinds := []string{"t1:known", "t2:known", "t1:unknown-key-id", "t2:unknown-key-id", "t1:off-curve", "t1:identity", "t1:zero-prefix-49", "t1:short", "t1:long", "t2:above-modulus", "t2:short", "t2:empty"}
 	// requests for the cross-type issuer's key (it must be served although a type-2 issuer has the same last byte)
 	maxLen := 2
